@@ -26,9 +26,11 @@ def refusals():
     global _REFUSALS
     if _REFUSALS is None:
         from psyclone.psyir.symbols import SymbolError
-        from psyclone.errors import GenerationError, InternalError
-        _REFUSALS = (SymbolError, GenerationError, InternalError, KeyError,
-                     ValueError, TypeError, NotImplementedError)
+        from psyclone.errors import GenerationError
+        # the documented errors of rename_symbol / new_symbol / the symbol
+        # property setters / the node-editing methods; anything else that an
+        # edit raises is reported as a harness error and looked at
+        _REFUSALS = (SymbolError, GenerationError, KeyError, ValueError)
     return _REFUSALS
 
 
@@ -158,8 +160,8 @@ def touched(pair, desc):
                "setiface", "specialise", "visibility", "constant"):
         return [pair.syms[side][idx][1]]
     if opn == "access":
-        sym = pair.syms[side][idx][1]
-        return [sym, sym.interface]
+        # the symbol is untouched: its interface object is modified in place
+        return [pair.syms[side][idx][1].interface]
     if opn in ("newsym", "newclash"):
         return [pair.scopes[side][idx].symbol_table]
     if opn == "unitname":
@@ -192,7 +194,7 @@ def apply_edit(pair, desc):
                     not any(s is sym for s in table.symbols):
                 return "inapplicable"
             if opn == "rename":
-                table.rename_symbol(sym, sym.name + "_r")
+                table.rename_symbol(sym, sym.name + "_zz")
             elif opn == "settype":
                 oth = _partner(pair, side, sidx, sym)
                 bound = Reference(oth) if oth else Literal("5", INTEGER_TYPE)
@@ -244,7 +246,7 @@ def apply_edit(pair, desc):
                 table.new_symbol(table.symbols[-1].name,
                                  symbol_type=DataSymbol, datatype=REAL_TYPE)
             else:
-                scope.name = scope.name + "_r"
+                scope.name = scope.name + "_zz"
             return "applied"
         node = pair.nodes[side][idx]
         if not pair.within(side, node):
